@@ -1447,4 +1447,7 @@ func TestC16(t *testing.T) {
 	h.Run(c, "fanout", c.N(36, 40), genFan, oracleFan(reps))
 	c.Rule("twins: 2..4 independent pipelines (1..3 forwarding stages, 0..150 items, buffers 0..2) running at once from ONE source text (one stage function, one runner function); items are int64 or *int64 with every third a nil pointer; a stage hands an item on by a literal call, a parenthesised call, a member call, an element call, a named call or a plain send; every pipeline must deliver exactly its own items in order; GOMAXPROCS 2,4,16 x 1..3; non-trivial = >= 2 items per pipeline")
 	h.Run(c, "twins", c.N(150, 1500), genTwins, oracleTwins)
+	c.Rule("drained: a channel of every kind of element type (pointers, slices, maps, interface, channel, scalars), closed and drained: a receive expression (as an argument, assigned, as a list / map element, returned by a function) yields the untyped nil; close twice (also in a loop) is an error; close of a pointer to a channel or of a nil channel is an error, never a crash. goargs: 4-40 go calls of a worker with 1-5 parameters whose first argument has a side effect (a receive from a jobs channel, a host counter): the workers receive every job number exactly once and the counter is called once per go call; 257-320 goroutines parked on a gate all run concurrently with their caller; all cases non-trivial")
+	h.Run(c, "drained", c.N(1200, 12000), genDrained, oracleDrained)
+	h.Run(c, "goargs", c.N(120, 1200), genGoArgs, oracleGoArgs)
 }
